@@ -6,7 +6,7 @@ SD=$1; P=$2; TIER=${3:-quick}
 export GOFLAGS=-mod=mod GOPROXY=off GOSUMDB=off GOTOOLCHAIN=local
 cd /repo || exit 2
 git diff --quiet || { echo "repo dirty"; exit 2; }
-demo=$(ls $SD/*_test.go 2>/dev/null | head -1)
+demo=$(ls $SD/*_test.go $SD/demo_test.go.txt 2>/dev/null | head -1)
 pkgdir=$(grep -ohE "server(/[a-z0-9_/]+)?" $SD/notes.md 2>/dev/null | head -1)
 [ -f "$SD/demo_pkg" ] && pkgdir=$(cat $SD/demo_pkg)
 [ -z "$pkgdir" ] && pkgdir=server
